@@ -17,12 +17,14 @@ from .. import env
 
 PROPERTY_ID = "C04"
 TECHNIQUE = ("bounded exhaustive enumeration (small-scope model checking) of the real numba "
-             "kernels against a pure-Python reference model; controlled executor (FIFO/LIFO)")
+             "kernels against a pure-Python reference model; controlled executor (FIFO/LIFO)"
+             '; task-footprint recorder on the per-block tasks')
 RULE = ("case = one word over (code in {null,0,1,2}) x (value null / distinct non-null) [x mask "
         "bit] for one dtype class; every case runs all kernels x all splits (n_threads 1..4, every "
         "composition into 2..4 chunked value blocks) x the mask kind of the sub-space; non-trivial "
         "= at least 2 rows and (>=2 groups present or a null code/value or a rejected row)")
 ASSUMPTIONS = [
+    'footprint sub-spaces (write-write conflicts between the per-block task bodies) for boolean / no / positional masks and every split',
     "values outside the position table (signed powers of two) are not explored",
     "n <= 5 rows (quick) / 6 rows (thorough); G <= 3 groups; <= 4 blocks",
     "thread pool replaced by the controlled executor (completion order FIFO and LIFO); real "
